@@ -339,3 +339,5 @@ import props_c03
 props_c03.register(_sys.modules[__name__])
 import props_c01
 props_c01.register(_sys.modules[__name__])
+__import__("props_c04").register(_sys.modules[__name__])
+__import__("props_c12").register(_sys.modules[__name__])
